@@ -452,6 +452,24 @@ func wnGen(prop string) func(rng *rand.Rand, tier string) *gosim.Plan {
 		}
 		nphase := 2 + rng.Intn(3)
 		p.Params["gc_pause_ms"] = gosim.Pick(rng, 0, 0, 1, 20)
+		if hot && rng.Intn(2) == 0 {
+			// scripted family history: make all files known (uploaded, some
+			// downloaded), then delete them one after the other in a random order;
+			// the oracle runs after every deletion
+			p.Params["capacity"] = 100
+			for f := 0; f < nfiles; f++ {
+				if rng.Intn(4) == 0 {
+					p.Ops = append(p.Ops, gosim.Op{K: "cache", A: []int64{0, int64(f)}})
+				} else {
+					p.Ops = append(p.Ops, gosim.Op{K: "upload", A: []int64{0, int64(f), 0}})
+				}
+			}
+			p.Ops = append(p.Ops, gosim.Op{K: "barrier"})
+			for _, f := range rng.Perm(nfiles)[:nfiles-1] {
+				p.Ops = append(p.Ops, gosim.Op{K: "delete", A: []int64{0, int64(f)}}, gosim.Op{K: "barrier"})
+			}
+			return p
+		}
 		for ph := 0; ph < nphase; ph++ {
 			if (prop == "C12" || prop == "C13" || prop == "C16") && ph > 0 && rng.Intn(3) == 0 {
 				// race phase: one client collects while another works on files the
